@@ -24,6 +24,7 @@ def de_casteljau(P:list, t:float):
     for j in range(order):
         for i in range(order - j):
             coeffs[i] = t*coeffs[i+1] + (1-t)*coeffs[i]
+    if order == 0: return Vec(np.array(coeffs[0], dtype=float)) # never hand out the stored control point
     return coeffs[0]
 
 
